@@ -225,6 +225,8 @@ SubSeqs == LET sets == SUBSET Idx \ {{}}
                             \A a, b \in 1 .. Cardinality(S) : a < b => q[a] < q[b]
                Rev(q) == [n \in 1 .. Len(q) |-> q[Len(q) + 1 - n]]
            IN  {Asc(S) : S \in sets} \cup {Rev(Asc(S)) : S \in sets}
+               \* a type may be listed more than once in a key list (it is then simply written twice)
+               \cup {<<i, i>> : i \in Idx} \cup {<<i, j, i>> : <<i, j>> \in {p \in Idx \X Idx : p[1] # p[2]}}
 
 PTNext == \/ \E K1 \in SubSeqs, K2 \in SubSeqs, v \in Vals : PTSet(K1, K2, v)
           \/ \E v \in Vals : PTSetUnset(v)
